@@ -932,11 +932,15 @@ func TestC17(t *testing.T) {
 	defer r.Close()
 	f := NewFix(t)
 	h := &c17h{r: r, f: f, base: f.Ctx, k: f.App.DymNSKeeper}
+	saved := *f
+	h.f0 = &saved
+	f.Rebind = append(f.Rebind, func() { h.k = h.f.App.DymNSKeeper })
 	if lines := ReplayLines(); lines != nil {
-		for _, l := range lines {
+		for i, l := range lines {
 			r.Emit(l, h.exec(l))
 			ff := strings.Fields(l)
-			if ff[0] != "reset" && ff[0] != "v" && h.msgOf(ff) != nil {
+			// (a recorded history already has the `v` line after each message)
+			if ff[0] != "reset" && ff[0] != "v" && h.msgOf(ff) != nil && !(i+1 < len(lines) && lines[i+1] == "v") {
 				r.Emit("v", h.exec("v"))
 			}
 		}
